@@ -24,7 +24,7 @@ Theorem C04_integral_signed_storage_generic_source : forall St p, admissible St 
 Proof. exact mi_init_gen_s_correct. Qed.
 Print Assumptions C04_integral_signed_storage_generic_source.
 Theorem C04_integral_unsigned_storage_generic_source : forall St p, admissible St p -> forall T y,
-  sg St = false -> wf T -> tmin T < y <= tmax T -> Z.abs y <= tmax St -> residue p y (mi_init_gen_u_int St p T y).
+  sg St = false -> in_range T y -> - 2 ^ 63 < y < 2 ^ 63 -> Z.abs y <= tmax St -> residue p y (mi_init_gen_u_int St p T y).
 Proof. exact mi_init_gen_u_correct. Qed.
 Print Assumptions C04_integral_unsigned_storage_generic_source.
 Theorem C04_integral_float_source_signed_storage : forall St p, admissible St p -> forall prec y,
@@ -47,10 +47,6 @@ Theorem C04_integral_generic_signed_body_unsound_for_same_width_unsigned :
   exists St p y, admissible St p /\ in_range (unsigned_of St) y /\ ~ residue p y (mi_init_gen_s_int St p y).
 Proof. exact mi_init_gen_s_same_width_refuted. Qed.
 Print Assumptions C04_integral_generic_signed_body_unsound_for_same_width_unsigned.
-Theorem C04_integral_int32_min_into_uint64_refuted :
-  exists p y, admissible u64 p /\ in_range i32 y /\ ~ residue p y (mi_init_gen_u_int u64 p i32 y).
-Proof. exact mi_init_gen_u_type_min_refuted. Qed.
-Print Assumptions C04_integral_int32_min_into_uint64_refuted.
 Theorem C04_integral_float_source_unrepresentable_modulus_refuted :
   exists p y r, admissible i32 p /\ rnd 24 y = y /\ mi_init_float_s i32 p 24 y = Some r /\ ~ residue p y r.
 Proof. exact mi_init_float_modulus_refuted. Qed.
@@ -87,12 +83,9 @@ Theorem C04_ruint_Integer_source_every_integer : forall K p, 6 <= K -> 2 <= p < 
 Proof. exact ru_init_Integer_correct. Qed.
 Print Assumptions C04_ruint_Integer_source_every_integer.
 Theorem C04_ruint_native_integer_source : forall K p, 6 <= K -> 2 <= p < 2 ^ (2 ^ K) -> forall T a,
-  wf T -> bits T <= 64 -> tmin T < a <= tmax T -> exists r, ru_init K p (SI T) a = Some r /\ residue p a r.
+  in_range T a -> - 2 ^ 63 < a < 2 ^ 64 -> (sg T = true -> a < 2 ^ 63) -> exists r, ru_init K p (SI T) a = Some r /\ residue p a r.
 Proof. exact ru_init_int_correct. Qed.
 Print Assumptions C04_ruint_native_integer_source.
-Theorem C04_ruint_int32_min_refuted : exists p a r, 2 <= p /\ in_range i32 a /\ ru_init 7 p (SI i32) a = Some r /\ ~ residue p a r.
-Proof. exact ru_init_int32_min_refuted. Qed.
-Print Assumptions C04_ruint_int32_min_refuted.
 
 (* ---- table rings: the index looked up in pol2log / _tab_value2rep is x mod q ---- *)
 Theorem C04_gfq_Integer_source_every_integer : forall q, 2 <= q -> forall b x, gf_init b q SInteger x = Some (x mod q).
@@ -109,6 +102,19 @@ Print Assumptions C04_gfq_signed_source_all_values_incl_type_min.
 Theorem C04_log16_int64_source_every_value : forall p a, 2 <= p < 2 ^ 15 -> in_range i64 a -> lg_init_i64 p a = Some (a mod p).
 Proof. exact lg_init_i64_correct. Qed.
 Print Assumptions C04_log16_int64_source_every_value.
+
+Theorem C04_log16_floating_source_every_value : forall p prec a, 2 <= p < 2 ^ 15 -> lg_init p (SF prec) a = Some (a mod p).
+Proof. exact lg_init_float_correct. Qed.
+Print Assumptions C04_log16_floating_source_every_value.
+Theorem C04_gfq32_floating_source_every_value : forall q prec x, 2 <= q <= 2 ^ 31 -> gf_init 32 q (SF prec) x = Some (x mod q).
+Proof. exact gf_init_float_correct. Qed.
+Print Assumptions C04_gfq32_floating_source_every_value.
+
+(* ---- ModularExtended<float|double>: the specialisations (Integer, floating, 64-bit / >= 32-bit native sources) ---- *)
+Theorem C04_extended_specialised_sources : forall prec p, 2 <= p -> forall s a,
+  ex_src_ok prec s a -> exists r, ex_init prec p s a = Some r /\ residue p a r.
+Proof. exact ex_init_specialised_correct. Qed.
+Print Assumptions C04_extended_specialised_sources.
 
 (* ---- Montgomery<int32_t>: relative to the REDC specification (proved in C07 for its own model) ---- *)
 Theorem C04_montgomery_image_canonical_partial : forall p, 3 <= p <= 40503 -> redc_spec p -> forall r, 0 <= r < p -> 0 <= mg_to p r < p.
